@@ -415,7 +415,7 @@ func c26gen(c *Ctx) []string {
 			a.acct = 1 + uint64(r.Intn(2))
 			a.vote = uint64(r.Intn(3))
 		}
-		if r.Intn(5) == 0 {
+		if r.Intn(4) == 0 {
 			a.vh = uint64(1 + r.Intn(12))
 		}
 		if r.Intn(12) == 0 {
@@ -437,7 +437,13 @@ func c26gen(c *Ctx) []string {
 		case x < 24:
 			lines = append(lines, fmt.Sprintf("putdb %d %d %d %d %d %d %d", id, a.asset, a.amount, a.acct, a.vote, a.vh, a.contract))
 		case x < 40:
-			lines = append(lines, fmt.Sprintf("addunc %d %d %d %d %d %d", id, a.asset, a.amount, a.acct, a.vote, a.vh))
+			// the pool copy of an output is computed by txOutToUtxos(tx, 0): it may carry another
+			// ValidHeight than the wallet-DB record of the same output
+			uvh := a.vh
+			if r.Intn(3) == 0 {
+				uvh = uint64(r.Intn(4))
+			}
+			lines = append(lines, fmt.Sprintf("addunc %d %d %d %d %d %d", id, a.asset, a.amount, a.acct, a.vote, uvh))
 		case x < 46:
 			lines = append(lines, fmt.Sprintf("rmunc %d", id))
 		case x < 51:
